@@ -108,8 +108,10 @@ class UnpicklableBoom(Exception):
     """Raised with an unpicklable attribute attached after construction (see TFn.__call__)."""
 
 
+from .graphs_exc2 import Boom as Boom2  # noqa: E402  (a different class with the same __name__)
+
 EXC = {"ValueError": ValueError, "KeyError": KeyError, "Boom": Boom, "BaseBoom": BaseBoom,
-       "UnpicklableBoom": UnpicklableBoom, "ZeroDivisionError": ZeroDivisionError}
+       "UnpicklableBoom": UnpicklableBoom, "ZeroDivisionError": ZeroDivisionError, "Boom2": Boom2}
 
 
 class TFn:
@@ -145,6 +147,8 @@ class TFn:
             msg = "boom-%d" % self.idx
             if self.fail == "Boom":
                 raise Boom(msg, extra=self.idx)
+            if self.fail == "Boom2":
+                raise Boom2(msg, extra=self.idx)
             if self.fail == "UnpicklableBoom":
                 e = UnpicklableBoom(msg)
                 e.handle = threading.Lock()  # makes pickling the exception object fail
